@@ -18,6 +18,8 @@ def ref_linecol(b, off):
 
 
 # ---------------------------------------------------------------------------------------------- K1 lexer accounting
+def _fault_codes(code): return (code,) if isinstance(code, str) else tuple(code)
+
 _CTX = None
 
 def _k1_job(job):
@@ -677,7 +679,7 @@ def _k8_job(job):
     for o in outs:
         if o == 'rejected': part.inconc('%s does not parse' % uname); continue
         kind, ds = o
-        mine = [d for d in ds if d[0] == code]
+        mine = [d for d in ds if d[0] in _fault_codes(code)]
         if not mine: continue                     # a missing diagnostic is C02's matter
         for (c, lab, fi) in mine:
             src = files[fi] if fi is not None and fi < len(files) else None
@@ -697,7 +699,7 @@ def _replay_unit_label(uname, split):
         files = [''.join(d for d, f in zip(decls, split) if f == i) for i in range(max(split) + 1)]
         got = TP.real_analyze(ctx, files)
         if got in ('panic', 'rejected'): return None, {'result': got}
-        mine = [g for g in got if g[0] == code]
+        mine = [g for g in got if g[0] in _fault_codes(code)]
         if not mine: return None, {'note': 'the diagnostic is not reported', 'got': got}
         return any(g[1] not in labs for g in mine), {'unit': uname, 'files': files, 'labels': [g[1] for g in mine], 'expected_one_of': labs}
     return rp
